@@ -49,6 +49,17 @@ def templates():
     t("random_choices", "let a = [1, 2, 3].random_choices(2);", [R])
     t("random_in_map", "let a = [1, 2].map((x: int) -> {uniform_distribution(1, 6).random()}).to_array();", [R, R])
     t("random_default", "fn d(x: int ?= uniform_distribution(1, 6).random())->int { x }\nlet a = d();", [R])
+    # the same builtins on other argument shapes (long sequences take other code paths)
+    t("random_sample_large", "let a = range(1000).sample(2);", [R])
+    t("random_sample_huge", "let a = range(100000).sample(1);", [R])
+    t("random_sample_most", "let a = range(50).sample(49);", [R])
+    t("random_shuffle_large", "let a = range(300).shuffle();", [R])
+    t("random_choices_large", "let a = range(1000).random_choices(3);", [R])
+    t("random_sample_in_map", "let a = [2, 3].map((k: int) -> {range(1000).sample(k).len()}).to_array();", [R, R])
+    t("random_disc_sample", "let a = uniform_distribution(1, 6).sample(100);", [R])
+    t("random_binomial", "let a = binomial_distribution(4, 0.5).random();", [R])
+    t("random_normal", "let a = normal_distribution(0.0, 1.0).random();", [R])
+    t("random_custom_dist", "let a = custom_distribution([(1, 0.5), (2, 0.5)]).sample(3);", [R])
     t("regex_direct", 'let a = regex("a+");', [X])
     t("regex_wrapper", 'fn w(s: str)->Regex { regex(s) }\nlet a = w("b");', [X])
     t("sleep_direct", "let a = sleep(seconds(0.0));", [S])
@@ -90,6 +101,12 @@ def run(chk, tier, seed):
         t = byid[c["id"]]
         jobs.append({"id": jid, "src": t["src"] + "\n", "perms": xv_perms(c["perms"]), "trace": True, "observe": []})
         exp[jid] = (c, t)
+        if c.get("history"):
+            # the same assignment reached through a history of calls (each permission first set the other way)
+            hid = "h%d" % len(jobs)
+            jobs.append({"id": hid, "src": t["src"] + "\n", "perms": xv_perms(c["perms"]), "perm_ops": [[o["id"], o["allow"]] for o in c["history"]],
+                         "trace": True, "observe": []})
+            exp[hid] = (c, t)
     res = vf.run_jobs(jobs, "c11")
     chk.count(len(jobs))
     for j in jobs:
@@ -117,8 +134,8 @@ def run(chk, tier, seed):
         if problems:
             chk.violation("%s under %s: %s expected %s, observed %s" % (t["id"], j["perms"], problems[0][0], problems[0][1], problems[0][2]),
                           {"kind": "perm", "template": t["id"], "source": t["src"], "perms": j["perms"], "sites": t["sites"],
-                           "expected": c, "observed": {"outcome": oc, "touched": got_touch, "stdout": o.get("stdout")}})
-    vf.validate_job_traces(chk, jobs, res, "c11", "permission trace")
+                           "perm_ops": j.get("perm_ops"), "expected": c, "observed": {"outcome": oc, "touched": got_touch, "stdout": o.get("stdout")}})
+    vf.validate_job_traces(chk, [j for j in jobs if j["id"].startswith("j")], res, "c11", "permission trace")
     # the shipped scripts, under their own permission configuration
     scr = [s for s in corpus.scripts() if not s["cfg"].get("expected_compilation_error")]
     if tier == "quick":
@@ -145,6 +162,8 @@ def replay(chk, path):
     if rp.get("kind") == "trace":
         return vf.replay_trace_job(chk, rp)
     j = {"id": "r", "src": rp["source"] + "\n", "perms": rp["perms"], "trace": True}
+    if rp.get("perm_ops"):
+        j["perm_ops"] = rp["perm_ops"]
     o = vf.run_jobs([j], "replay")["r"]
     oc = vf.job_outcome(o)
     want = "ok" if rp["expected"]["outcome"] == "none" else "inst_" + rp["expected"]["outcome"]
